@@ -8,41 +8,41 @@ NOTE = ("Trusts rustc nightly (type check, MIR construction, trait resolution), 
         "not the run-time behaviour; library target only. ")
 
 CHECKS = {
- "C01": ("Structural discipline of the bump position: single writer family with classified value provenance (R1), hand-out <=> bump in the allocation primitive and no write in prepare primitives (R2), is-last/align_fits gates on every in-place path (R3), slow-path ordering (R4). Added later: is_last compares exact boundaries (R3), the chunk that satisfied the request becomes current (R4), bump primitives align and fit-test every success path and measure the range they return (R6/R7), every written position is min-aligned incl. re-aligned checkpoint restores (R8), rounded towards the free side (R12); shared: split partitions (R9), reclaim boundary (R10), settings conversions (R11).",
+ "C01": ("Structural discipline of the bump position: single writer family with classified value provenance (R1), hand-out <=> bump in the allocation primitive and no write in prepare primitives (R2), is-last/align_fits gates on every in-place path (R3), slow-path ordering (R4). Added later: is_last compares exact boundaries (R3), the chunk that satisfied the request becomes current (R4), bump primitives align and fit-test every success path and measure the range they return (R6/R7), every written position is min-aligned incl. re-aligned checkpoint restores (R8), rounded towards the free side (R12); shared: split partitions (R9), reclaim boundary (R10), settings conversions (R11). Round 5: the downward bump helper subtracts with saturating/checked arithmetic (R17 = C07.R7).",
          "Not decided: the integer arithmetic of bump_up/bump_down (C11), users' unsafe contracts."),
  "C03": ("Checkpoint = (chunk, position) and its restore write (R1); scope-guard protocol incl. drop on return and on unwind of the user closure, checkpoint before align in scoped_aligned (R2); reset_to restores position and current chunk on every path, reset_to_start rewinds to the first chunk (R3); no chunk is freed on any scope-exit path (R4); new chunks only after later chunks were tried (R5); alloc_try_with(_mut) checkpoint-before-allocate and Err rewind (R6). A missing checkpoint/rewind in alloc_try_with(_mut) is a violation (R6).",
          "Not decided: numeric equality of allocated() before/after, that reset loops stop requesting chunks after finitely many rounds."),
  "C04": ("Exploration of a generated program space with rustc as the oracle: every witness (producer x handle x escape route; Send/Sync; settings conversions) must be rejected with an expected diagnostic, every twin accepted; compiled against the rlib built from the working tree in the same run. Supporting MIR rules: bounds on unsafe impl Send/Sync (R1), enumeration/coverage of lifetime-laundering functions (R2); type-level signature rules over all safe functions: every lifetime of a return type is anchored in the arguments (R3), a by-value handle argument keeps its lifetime in a handle-returning function (R4). Owner-overwrite witnesses (an owned BumpScope value stored into an owning arena's storage) - five of them compile on the current tree and are listed as known findings.",
          "Not decided: safe programs outside the generated grammar; code using `unsafe`. Trusts rustc's borrow checker, trait solver and const evaluation."),
- "C05": ("Who may call the base allocator: one allocate and one deallocate site, never from unallocated constructors (R1); drop releases every chunk exactly once on every path, walks read links before freeing, into_raw suppresses the drop (R2); reset keeps exactly the last chunk (R3); release layout agrees with the request: same alignment atom, pointer chunk_start, size chunk_end-chunk_start, no header read after the release (R4); a failed chunk creation links nothing (R5). Added later: requested sizes are multiples of the header alignment (R6), by_value allocates before copying the handle (R7), rounding order of the size computation (R8).",
+ "C05": ("Who may call the base allocator: one allocate and one deallocate site, never from unallocated constructors (R1); drop releases every chunk exactly once on every path, walks read links before freeing, into_raw suppresses the drop (R2); reset keeps exactly the last chunk (R3); release layout agrees with the request: same alignment atom, pointer chunk_start, size chunk_end-chunk_start, no header read after the release (R4); a failed chunk creation links nothing (R5). Added later: requested sizes are multiples of the header alignment (R6), by_value allocates before copying the handle (R7), rounding order of the size computation (R8). Round 5: no plain + or * in the chunk-size computations (R10 = C12.R1).",
          "Not decided: 'released size >= requested size' as a number (arithmetic of C12); behaviour of a faulty base allocator."),
  "C14": ("Claim protocol: diverging already-claimed test, replace with the CLAIMED constant, reclaim of the claimant's current chunk on guard drop, guard not Clone and built in one place (R1); every classifier consumer separates Claimed from NonDummy and fallible ones return E::claimed() before any effect (R2); geometry of the four dummy headers read from the statics' MIR (capacity -16, self-contained, no links) and direction selection (R3); guard derefs to its claimant scope (R4); a handle's refusal becomes E::allocation (abort under the panicking API) only after is_claimed() was false, else E::claimed (R5).",
          "Not decided: that is_last is false for the dummy position for every user pointer (provenance argument, not computed); numeric behaviour of the bump primitives on the dummy range (C11)."),
  "C15": ("Interface discipline of MutBumpVec/MutBumpVecRev/MutBumpString and the *_mut helpers incl. helper functions they reach: only prepare/statistics calls, commit only in finalisers, tabled fast-path exceptions (R1); no position write reachable from the prepare primitives except the lazy reset of a later chunk (R2); drop glue reaches no allocator method (R3); prepared commits and growth copies as affine normal forms relative to the prepared range, up/down x forward/reverse (R4). Added later: direction query only after a successful prepare on type-erased paths (R5), wrapper impls forward to their namesake (R6).",
          "Not decided: the numbers (padding bounds), contents of the elements."),
- "C16": ("Partition identities by affine value numbering on every return path of BumpBox<[T]>/<str>::split_off, FixedBumpVec::split_off, split_at_unchecked, split_first/last, split_at_spare: adjacency, length and capacity sums, ZST arms, rotate amounts; merge form and contiguity gate; into_flattened len*N (R1); range / bound validation dominates pointer arithmetic (R2); the allocator reads no per-block metadata, so sub-blocks are legal blocks (R3). Added later: rotation scheme agreed by the four split_off implementations (R4), merge consumes both operands (R5).",
+ "C16": ("Partition identities by affine value numbering on every return path of BumpBox<[T]>/<str>::split_off, FixedBumpVec::split_off, split_at_unchecked, split_first/last, split_at_spare: adjacency, length and capacity sums, ZST arms, rotate amounts; merge form and contiguity gate; into_flattened len*N (R1); range / bound validation dominates pointer arithmetic (R2); the allocator reads no per-block metadata, so sub-blocks are legal blocks (R3). Added later: rotation scheme agreed by the four split_off implementations (R4), merge consumes both operands (R5). Round 5: R1 also covers FixedBumpString::split_off; reclaim boundary of deallocate/shrink for sub-blocks (R8 = C13.R3).",
          "Not decided: element contents after rotation (delegated to core::slice::rotate_*), follow-up operation histories on the parts, partition (callback-driven)."),
  "C17": ("Sibling agreement of all entry points: forward_methods! instances call their namesake with parameters in order (R1); reference/wrapper/Bump->scope and foreign-Allocator impls forward to their namesake, exceptions tabled (R2); every m/try_m twin pair has the same normalised callee sequence and argument skeleton (R3); layout hint types only from truthful sources, BumpProps copies hints, fast and slow paths agree on T/len (R4); trait-object helpers use the same primitives (R5). Added later: direction after prepare (R6), primitives (R7), reserve never switches the current chunk (R8), alloc_try_with twins rewind alike (R9), min-aligned positions on every path incl. trait objects (R10).",
          "Not decided: 'same offset and byte count' as numbers (needs the hint-independence of C11's arithmetic); value-level equality of results."),
  "C18": ("Raise: aligning call dominates the type-changing transmute which dominates the closure (R1); lower: BumpAlignGuard constructed before the closure and dropped on return and unwind, its drop aligns with the outer MIN_ALIGN (R2); scoped_aligned takes the checkpoint before aligning (R3); conversions: run-time panics exactly under their stated conditions, shared-borrow conversion writes nothing, the compile-time assertions of every ensure_* are read from the inline-const MIR and every mutable conversion aligns on every path (R4). Added later: the align guard re-aligns the chunk current at drop time (R2), by_value / make_allocated protocol (R5), min-aligned positions (R6).",
          "Not decided: numbers; disjointness across alignment regions (C01); that rustc rejects the violating conversions is exercised by C04's witnesses."),
- "C19": ("Ownership protocol of the pool, which discharges the schedule quantifier statically: idle stack only behind the mutex and no stray unsafe (R1); pop -> guard(ManuallyDrop, no Clone) -> take in Drop -> push, guard constructed only in the get family (R2); constructor calls only after pop() returned None (R3); pool-wide reset forwards (R5). Lifetime / Send / Sync clauses are decided by rustc on the witness corpus (R4, with C04). The pool part of the witness corpus is run by this check itself (C19.W); two Stats-vs-guard witnesses compile today and are known findings.",
+ "C19": ("Ownership protocol of the pool, which discharges the schedule quantifier statically: idle stack only behind the mutex and no stray unsafe (R1); pop -> guard(ManuallyDrop, no Clone) -> take in Drop -> push, guard constructed only in the get family (R2); constructor calls only after pop() returned None (R3); pool-wide reset forwards (R5). Lifetime / Send / Sync clauses are decided by rustc on the witness corpus (R4, with C04). The pool part of the witness corpus is run by this check itself (C19.W); two Stats-vs-guard witnesses compile today and are known findings. Round 5: poisoning of the pool's mutex is recovered at every lock/get_mut (R6).",
          "Not decided: fairness and timing; 'number of arenas never exceeds the peak' as a number (follows from R2+R3, not computed)."),
- "C06": ("Shape rules behind exactly-once dropping: length store dominates every in-place slice drop (R1); critical sections discovered over the call graph (raw operation followed by user code, directly or through helpers/closures): tabled instances must drop their guard on the unwind path of the callback, safe-order instances tabled with reason, new ones reported UNCLASSIFIED (R2); ExtractIf index update between predicate and read (R2b); append hand-over order reserve -> copy -> take_owned_slice (R3); owners' Drop reaches drop_in_place on their buffer (R4). Added later: no element range accounted twice in Drain::drop (R5), clone loops count per iteration (R6), no mem::forget of callback results while user code can still run (R7), keep_rest compaction (R8), merge consumes both operands (R9).",
+ "C06": ("Shape rules behind exactly-once dropping: length store dominates every in-place slice drop (R1); critical sections discovered over the call graph (raw operation followed by user code, directly or through helpers/closures): tabled instances must drop their guard on the unwind path of the callback, safe-order instances tabled with reason, new ones reported UNCLASSIFIED (R2); ExtractIf index update between predicate and read (R2b); append hand-over order reserve -> copy -> take_owned_slice (R3); owners' Drop reaches drop_in_place on their buffer (R4). Added later: no element range accounted twice in Drain::drop (R5), clone loops count per iteration (R6), no mem::forget of callback results while user code can still run (R7), keep_rest compaction (R8), merge consumes both operands (R9). Round 5: dedup_by advances gap.read before dropping the duplicate and compares with the retained slot (R11); keep_rest may skip a move only under the matching already-in-place condition (R8 extended).",
          "Not decided: exact drop counts over histories; leaks the statement allows; panics thrown by Drop itself; iterator adaptors' internal protocols beyond the tabled ones."),
- "C07": ("The panicking error behaviour is uninhabited and its constructors diverge (R1); binding-aware call-graph proof that no try_* function and no allocator-interface method reaches the allocation-failure panic set or binds an ErrorBehavior parameter to Infallible (R2); failed chunk creation links nothing (R3); reserve-before-write in every single-operation E-generic collection method (R4); checked size computations with error-constructing failure edges, never unwrapped (R5); the current-chunk cell is committed only after the last E-fallible step of the slow path (R6). Added later: fmt::Write sinks are roots, PanicsOnAlloc only under B::PANICS_ON_ALLOC; no plain +/* on caller counts (R5); current chunk committed after the last fallible step (R6); saturating address subtraction (R7).",
+ "C07": ("The panicking error behaviour is uninhabited and its constructors diverge (R1); binding-aware call-graph proof that no try_* function and no allocator-interface method reaches the allocation-failure panic set or binds an ErrorBehavior parameter to Infallible (R2); failed chunk creation links nothing (R3); reserve-before-write in every single-operation E-generic collection method (R4); checked size computations with error-constructing failure edges, never unwrapped (R5); the current-chunk cell is committed only after the last E-fallible step of the slow path (R6). Added later: fmt::Write sinks are roots, PanicsOnAlloc only under B::PANICS_ON_ALLOC; no plain +/* on caller counts (R5); current chunk committed after the last fallible step (R6); saturating address subtraction (R7). Round 5: every LockResult of the pool's mutex is recovered with PoisonError::into_inner (R11 = C19.R6).",
          "Not decided: the post-failure values (previous length and contents) beyond what the ordering implies; multi-step iterator-driven operations; leaks/double drops after failure (see C06)."),
- "C08": ("Claimed narrowly: facade methods delegate to the same-named shared slice implementation (R1); index-derived raw accesses are gated by std's bound relation with a diverging failure arm (R2); element shuffles of remove / swap_remove / insert against Vec's contract in affine normal form, forward and mirrored for the reverse vector (R3); capacity promises: grow only when needed, amortised vs exact policy, ZST never grows / capacity MAX (R4). Added later: ZST capacity in every FixedBumpVec constructor (R4), stale buffer pointers across growth (R5), sibling agreement on IS_ZST (R6), keep_rest compaction (R7), length lowered before drop (R8).",
+ "C08": ("Claimed narrowly: facade methods delegate to the same-named shared slice implementation (R1); index-derived raw accesses are gated by std's bound relation with a diverging failure arm (R2); element shuffles of remove / swap_remove / insert against Vec's contract in affine normal form, forward and mirrored for the reverse vector (R3); capacity promises: grow only when needed, amortised vs exact policy, ZST never grows / capacity MAX (R4). Added later: ZST capacity in every FixedBumpVec constructor (R4), stale buffer pointers across growth (R5), sibling agreement on IS_ZST (R6), keep_rest compaction (R7), length lowered before drop (R8). Round 5: dedup_by protocol (R12 = C06.R11); keep_rest skip conditions (R7 extended).",
          "NOT decided: equivalence with Vec over operation sequences, iterators (drain/splice/extract_if results), sort/dedup outcomes, lengths after multi-step operations."),
- "C09": ("Claimed narrowly: every index flowing into a byte-level editor of a string is covered by a dominating char-boundary check on that value (R1); bytes become str only after core::str::from_utf8 succeeded or at tabled sites with checked operand class (R2); retain's length guard covers the predicate, drain is lazy (R3); C-string constructors end at the first NUL or append exactly one (R4). Added later: CStr views of the input only at the first NUL (R4), stale pointers across growth (R5), decoder siblings (R6), split_off checks both ends on all paths (R7), rotation scheme of the split_off siblings (R8).",
+ "C09": ("Claimed narrowly: every index flowing into a byte-level editor of a string is covered by a dominating char-boundary check on that value (R1); bytes become str only after core::str::from_utf8 succeeded or at tabled sites with checked operand class (R2); retain's length guard covers the predicate, drain is lazy (R3); C-string constructors end at the first NUL or append exactly one (R4). Added later: CStr views of the input only at the first NUL (R4), stale pointers across growth (R5), decoder siblings (R6), split_off checks both ends on all paths (R7), rotation scheme of the split_off siblings (R8). Round 5: FixedBumpString::split_off partitions length and capacity on every arm (R10 = C16.R1 extended); Display/Debug of the string types delegate to <str as Display/Debug>::fmt only (R11).",
          "NOT decided: equivalence with std::string::String over operation sequences, lossy decoders' output, formatting results."),
- "C10": ("Every written position value is min-aligned by construction and the aligner helpers have their canonical form (R1, R1c); accounting identities allocated+remaining=capacity, size-capacity=header size and the Stats/AnyStats sum shapes (R2, affine value numbering); typed == type-erased accessors as affine normal forms (R3) and no size-dependent arithmetic on the erased header (R3b); chunk list link protocol (R4); recorded chunk size = aligned granted size (R5). Added later: checkpoint restores are re-aligned (R1), aligner direction (R1d), by_value ordering (R6).",
+ "C10": ("Every written position value is min-aligned by construction and the aligner helpers have their canonical form (R1, R1c); accounting identities allocated+remaining=capacity, size-capacity=header size and the Stats/AnyStats sum shapes (R2, affine value numbering); typed == type-erased accessors as affine normal forms (R3) and no size-dependent arithmetic on the erased header (R3b); chunk list link protocol (R4); recorded chunk size = aligned granted size (R5). Added later: checkpoint restores are re-aligned (R1), aligner direction (R1d), by_value ordering (R6). Round 5: growth doubles the chunk size, not its capacity (R8 = C12.R3).",
          "Not decided: the numbers themselves (position inside the chunk, strict growth of chunk sizes, multiples of 16)."),
  "C12": ("Claimed narrowly: no plain/wrapping/unchecked + or * in the size computations, plain - only where tabled (R1); failures become None/capacity_overflow, nothing unwrapped (R2); slow path sizes by max(hint for layout, checked doubling) (R3); rounding order and presence of every summand of the capacity hint (overhead, header, bytes + worst-case padding, MIN_CHUNK_ALIGN slack) for up and down, min raise, align_size after the overhead subtraction (R4, value numbering).",
          "NOT decided (stated plainly): that the rounded number really is >= header + padding + request for all layouts x header layouts x granted sizes; multiples of 16; '>= 2 x previous - 16'. These are value-level and out of reach of a sound static argument here."),
  "C13": ("Settings gates: position writes of deallocate bodies depend on S::DEALLOCATES, of shrink bodies on S::SHRINKS (R1); WithoutDealloc/WithoutShrink are no-ops exactly where promised (R2); reclaim writes the block's boundary, in-place upward grow keeps the address (R3); only tabled operations can move the position backwards (R4). Added later: in-place grow room test (R3), is_last exactness (R5).",
          "Not decided: 'the same address again' as a number (needs the arithmetic of C11)."),
- "C02": ("Copy length/source of every reallocation (R1), overlap-aware copies (R2), zeroing extents and zeroed->zeroed forwarding (R3), no raw writes reachable from non-reallocating arena operations (R4). Added later: reclaim boundary / grow room test (R5), split partitions do not overlap (R6), aligner direction (R7).",
+ "C02": ("Copy length/source of every reallocation (R1), overlap-aware copies (R2), zeroing extents and zeroed->zeroed forwarding (R3), no raw writes reachable from non-reallocating arena operations (R4). Added later: reclaim boundary / grow room test (R5), split partitions do not overlap (R6), aligner direction (R7). Round 5: after a user callback the position is written, and alloc_try_with's unchanged-position test is made, through a chunk handle read after the callback (R9).",
          "Not decided: byte values themselves."),
 }
 NOT_APPLICABLE = {
